@@ -120,6 +120,8 @@ def zreal(x):
         return z3.ToReal(e) if z3.is_int(e) else e
     if isinstance(x, SSqrt):
         return x.value().e
+    if isinstance(x, Sym) and hasattr(x, "piece_value"):
+        return zreal(x.piece_value())
     if isinstance(x, SBool):
         return z3.If(x.e, z3.RealVal(1), z3.RealVal(0))
     if z3.is_expr(x):
@@ -364,7 +366,7 @@ class SNum(Sym):
         return "SNum"
 
     # numpy object-ufunc hooks
-    def sqrt(self): return SSqrt(zreal(self))
+    def sqrt(self): return SSqrt(self.e)
     def conjugate(self): return self
     @property
     def real(self): return self
@@ -391,7 +393,7 @@ class SSqrt(Sym):
     """sqrt(radicand) kept lazy: comparisons are squared; a value is materialised only on demand."""
 
     def __init__(self, rad):
-        self.rad = z3.simplify(rad)
+        self.rad = z3.simplify(rad)       # Int- or Real-sorted radicand (kept in its own sort)
         self._val = None
 
     def value(self):
@@ -406,8 +408,11 @@ class SSqrt(Sym):
                 if hit is not None and hit[0].eq(self.rad):
                     self._val = hit[1]          # same radicand -> same root symbol
                 else:
-                    r = c.fresh_real("sqrt")
-                    c.assume(z3.And(r >= 0, r * r == self.rad))
+                    import hashlib
+                    # the root symbol is named after its radicand: sqrt is a function (equal radicands, equal roots)
+                    r = z3.Real("sqrt_" + hashlib.sha256(self.rad.sexpr().encode()).hexdigest()[:16])
+                    radr = z3.ToReal(self.rad) if z3.is_int(self.rad) else self.rad
+                    c.assume(z3.And(r >= 0, r * r == radr))
                     self._val = SNum(r)
                     cache[self.rad.get_id()] = (self.rad, self._val)
         return self._val
@@ -424,8 +429,12 @@ class SSqrt(Sym):
             return NotImplemented
         if lin is not None:
             return getattr(self.value(), "__%s__" % name)(o)
-        oz = zreal(o)
+        oz = zterm(o)
         rad = self.rad
+        if z3.is_int(rad) and z3.is_real(oz):
+            rad = z3.ToReal(rad)
+        elif z3.is_real(rad) and z3.is_int(oz):
+            oz = z3.ToReal(oz)
         return SBool({
             "lt": z3.And(oz > 0, rad < oz * oz),
             "le": z3.And(oz >= 0, rad <= oz * oz),
@@ -448,6 +457,9 @@ class SSqrt(Sym):
         if o == 2:
             return SNum(self.rad)
         return self.value() ** o
+
+    def __bool__(self):
+        return ctx().decide(self.rad != 0)
 
     def _arith(name):
         def f(self, o):
